@@ -146,6 +146,16 @@ def families(prop, tier):
         fams.append(dict(name='pools-dict', mode='dfs', depth=8 if q else 10, budget=600 if q else 40000,
                          cfg=dict(backend='dict', gate_store=False, nmsgs=3, nrcpt=1, backoff=[0, 2, None], store_pool=1, relay_pool=1,
                                   outcomes=['ok', 'T1'])))
+    if prop in ('C12',):
+        # flush() waiting for a slot of a bounded store pool while something else is put on the timetable (an announcement,
+        # a retry): what arrives meanwhile must be flushed or kept, not wiped
+        plans = [['enq', 'enq', 'relay:T1', 'relay:T1', 'flush', 'announce_new', 'get', 'get', 'get', 'relay:ok', 'relay:ok', 'relay:ok'],
+                 ['enq', 'enq', 'relay:T1', 'relay:T1', 'flush', 'get', 'announce_new', 'get', 'get', 'relay:ok', 'relay:ok', 'relay:ok'],
+                 ['enq', 'enq', 'relay:T1', 'relay:T1', 'adv', 'flush', 'announce_new', 'get', 'relay:T1', 'get', 'get', 'relay:ok', 'relay:ok']]
+        for sp in (1, 2):
+            fams.append(dict(name='flushpool-gdict', mode='plans', plans=plans,
+                             cfg=dict(backend='gdict', gate_store=True, gate_ops=['get'], announce=True, announce_new=True, store_pool=sp, flush=1,
+                                      nmsgs=2 if sp == 1 else 3, nrcpt=1, backoff=[5, None], outcomes=['ok', 'T1'])))
     if prop in ('C12', 'C01'):
         # a backend that announces (wait()) behind a bounded store pool: the listener must not eat the pool
         for sp in (1, 2):
